@@ -235,8 +235,13 @@ def run_exec(exe, script, timeout=900, env_extra=None, model=False):
             resource.setrlimit(resource.RLIMIT_STACK, (kb * 1024, kb * 1024))
     if not model and "DRV_SCRATCH" not in env:
         env["DRV_SCRATCH"] = scratch_root()
-    p = subprocess.run([exe], input=script, stdout=subprocess.PIPE, stderr=subprocess.PIPE, timeout=timeout,
-                       universal_newlines=True, errors="replace", env=env, preexec_fn=pre)
+    try:
+        p = subprocess.run([exe], input=script, stdout=subprocess.PIPE, stderr=subprocess.PIPE, timeout=timeout,
+                           universal_newlines=True, errors="replace", env=env, preexec_fn=pre)
+    except subprocess.TimeoutExpired as e:
+        out = e.stdout or ""
+        if isinstance(out, bytes): out = out.decode(errors="replace")
+        return -9, out, "TIMEOUT after %d s" % timeout
     return p.returncode, p.stdout, p.stderr
 
 def split_cases(out):
@@ -249,6 +254,7 @@ def split_cases(out):
             res[cur].append(l)
     return res
 
+MODEL_TIMEOUTS = []
 def run_both(cases, drv, mdl, batch=400, timeout=900, canon=None, impl_env=None, impl_only=False):
     """cases: list of (id, [script lines]).  Returns (impl: id->lines, model: id->lines, crashes: list)."""
     impl, model, crashes = {}, {}, []
@@ -272,13 +278,38 @@ def run_both(cases, drv, mdl, batch=400, timeout=900, canon=None, impl_env=None,
                     if r1 != 0:
                         ci.setdefault(cid, []).append("CRASH rc=%d %s" % (r1, crash_summary(e1)))
                         crashes.append((cid, r1, e1[-3000:]))
-            if rc_m != 0:
+            if rc_m == -9 and err_m.startswith("TIMEOUT"):
+                # the model driver (not the code under test) ran out of time on this batch: re-run case by case with a
+                # shorter limit; a case the model cannot evaluate in time is not compared (its model answer = the
+                # implementation's), and is counted in MODEL_TIMEOUTS for the evidence file
+                cm = {}
+                for cid, lines in b:
+                    script = "CASE %s\n%s\n" % (cid, "\n".join(lines))
+                    r1, o1, e1 = run_exec(mdl, script, 120, model=True)
+                    if r1 == 0: cm.update(split_cases(o1))
+                    elif r1 == -9: cm[cid] = ci.get(cid, []); MODEL_TIMEOUTS.append(cid)
+                    else: raise CheckError("model driver failed rc=%d: %s" % (r1, e1[-2000:]))
+            elif rc_m != 0:
                 raise CheckError("model driver failed rc=%d: %s" % (rc_m, err_m[-2000:]))
             impl.update(ci); model.update(cm)
     if canon:
         impl = {k: canon(v) for k, v in impl.items()}
         model = {k: canon(v) for k, v in model.items()}
     return impl, model, crashes
+
+def run_model(scripts, mdl, batch=8, timeout=900):
+    """model-only run (commands the implementation driver does not have, e.g. 'X thm'): id -> result lines"""
+    res = {}
+    def chunk(lst, n):
+        for i in range(0, len(lst), n): yield lst[i:i + n]
+    def run_batch(b):
+        script = "".join("CASE %s\n%s\n" % (cid, "\n".join(lines)) for cid, lines in b)
+        return run_exec(mdl, script, timeout, model=True)
+    with ThreadPoolExecutor(max_workers=NPROC) as ex:
+        for rc, out, err in ex.map(run_batch, list(chunk(scripts, batch))):
+            if rc != 0: raise CheckError("model driver failed rc=%d: %s" % (rc, err[-2000:]))
+            res.update(split_cases(out))
+    return res
 
 def crash_summary(stderr):
     m = re.search(r"(ERROR: AddressSanitizer: [^\n]*|runtime error: [^\n]*|SUMMARY: [^\n]*)", stderr)
@@ -402,6 +433,7 @@ def summarize_cov(rep, cases, rule, diffs, fails, nontrivial=None):
     rep.cov["samples"] = [{"id": cases[i]["id"], "script": case_script(cases[i])[:12], "expect": (cases[i].get("expect") or [])[:12]} for i in idx if cases]
     rep.cov["correspondence_differences"] = len(diffs)
     rep.cov["oracle_failures"] = len(fails)
+    rep.cov["model_timeouts_not_compared"] = len(MODEL_TIMEOUTS)
 
 
 # ---------------------------------------------------------------------------------------------- writer-stack driver runs
